@@ -106,7 +106,7 @@ def run_refine(tmp, text, newtext, mode, cycles, keep=False):
 def run(ctx):
     common.check_obligations(ctx, THEOREMS)
     rng = ctx.rng
-    n = 40 if ctx.thorough() else 6
+    n = 200 if ctx.thorough() else 6
     ev = 0
     tmp = tempfile.mkdtemp(prefix='verif-c19-')
     coq_cases = []
